@@ -27,7 +27,7 @@ GATES = {
     "clip_left": 1, "clip_up": 1, "clip_right": 1, "clip_down": 1,
     "roi_outside_left": 1, "roi_outside_right": 1, "roi_outside_up": 1, "roi_outside_down": 1,
     "roi_just_outside_first_eq_size": 1, "roi_just_outside_last_eq_minus1": 1,
-    "negative_mask_values": 1, "non_finite_samples_of_another_kind_than_nodata": 1, "nan_nodata_without_nodata_pixel": 1, "roi_sweep_windows": 100000, "datasets_compared": 50,
+    "negative_mask_values": 1, "samples_next_to_the_nodata_value": 1, "non_finite_samples_of_another_kind_than_nodata": 1, "nan_nodata_without_nodata_pixel": 1, "roi_sweep_windows": 100000, "datasets_compared": 50,
 }
 EXHAUSTIVE = False
 
@@ -226,6 +226,21 @@ def run_case(case, ctx):
         cfg["nodata"] = -9999
         if rng.random() < 0.3 and dtype in ("int16", "float32"):
             img[0, H // 2, W // 2] = -9999
+    near = case["i"] == 1
+    if near:
+        # directed constructor: samples that are NOT the nodata value but sit next to it (200001 / 199999 for 200000, -9999.0625
+        # for -9999): "no-data exactly when a sample EQUALS the nodata value"
+        dtype = "float32"
+        img = img.astype(np.float32)
+        nodata_v = [200000, -9999][case["part"] % 2]
+        cfg["nodata"] = nodata_v
+        nk = "near"
+        flat = img.reshape(-1)
+        k = max(1, flat.size // 7)
+        flat[:k:3] = nodata_v
+        flat[1:k:3] = np.float32(nodata_v + (1 if nodata_v > 0 else 0.0625))
+        flat[2:k:3] = np.float32(nodata_v - (1 if nodata_v > 0 else 0.0625))
+    ctx.gate("samples_next_to_the_nodata_value", int(near))
     names = gen.BAND_NAMES[:nb] if nb > 1 else None
     cfg["img"] = rasters.write_tif(os.path.join(d, "img.tif"), img, dtype, descriptions=names, georef=bool(rng.integers(0, 2)))
     mk = ["none", "zeros", "binary", "values", "negative"][int(rng.integers(0, 5))]
